@@ -78,14 +78,17 @@ def if_worker(hid):
     return res
 
 
-def _check_main(ctx, rep: Report):
-    rep.rules["C01.W"] = ("every WRITE event (attribute set/delete, raw set/delete, container mutation, "
-                          "subscript store/delete) on every abstract path of each helper under _inplace=False "
-                          "targets only objects allocated/copied inside the call; non-trivial = path with a write "
-                          "to a non-fresh object (distinct by write sequence)")
-    rep.rules["C01.IF"] = "with _if=False the only outcome is `return self` with no event"
-    rep.envs.append({"_inplace": False, "frozen": False, "do_not_copy": False, "_if": True})
-    results = pmap(worker, tasks(ctx))
+def w_rule(ctx, rep: Report, rule: str = "C01.W", task_filter=None):
+    """Copy-on-write routes write nothing that existed before the call (shared by the properties that rest on it)."""
+    rep.rules[rule] = ("every WRITE event (attribute set/delete, raw set/delete, container mutation, "
+                       "subscript store/delete) on every abstract path of each helper under _inplace=False "
+                       "targets only objects allocated/copied inside the call; non-trivial = path with a write "
+                       "to a non-fresh object (distinct by write sequence)")
+    env = {"_inplace": False, "frozen": False, "do_not_copy": False, "_if": True}
+    if env not in rep.envs:
+        rep.envs.append(env)
+    ts = [t for t in tasks(ctx) if task_filter is None or task_filter(ctx.helpers[t[0]], t)]
+    results = pmap(worker, ts)
     classwrites = set()
     for r in results:
         provrun.absorb(rep, r)
@@ -93,15 +96,21 @@ def _check_main(ctx, rep: Report):
             classwrites.add(tuple(cw))
         for uw in r["userwrites"]:
             rep.extra.setdefault("writes_to_user_callback_results", set()).add(tuple(uw))
-        rep.oblige("C01.W", r["entry"], not r["viols"],
+        rep.oblige(rule, r["entry"], not r["viols"],
                    f"{len(r['paths'])} paths" + (f"; {len(r['viols'])} offending writes" if r["viols"] else ""))
         for v in r["viols"]:
             fn, stmt = ctx.p.stmt_at(v["site"])
-            rep.violate(Violation("C01.W", v["key"],
+            rep.violate(Violation(rule, rule + v["key"][len("C01.W"):],
                                   f"{v['how']} on {'+'.join(v['prov'])} object `{v['target']}` with _inplace=False: `{stmt}`",
                                   v["site"], fn, v["path"], v["entry"]))
     rep.extra["class_or_global_writes"] = sorted(map(list, classwrites))[:40]
     rep.extra["writes_to_user_callback_results"] = sorted(map(list, rep.extra.get("writes_to_user_callback_results", ())))[:40]
+    return len(results)
+
+
+def _check_main(ctx, rep: Report):
+    rep.rules["C01.IF"] = "with _if=False the only outcome is `return self` with no event"
+    w_rule(ctx, rep, "C01.W")
     for rows in pmap(if_worker, list(ctx.helpers)):
         for hid, inplace, ok, tr in rows:
             rep.oblige("C01.IF", f"{hid}[_inplace={inplace}]", ok, "" if ok else f"events with _if=False: {tr}")
@@ -119,3 +128,5 @@ def check(ctx, rep):
     # anything else is rebuilt into a new container
     from .c04 import prepare_new_rule
     prepare_new_rule(ctx, rep, "C01.NEW")
+    from .c02 import dc_rule
+    dc_rule(ctx, rep, "C01.DC")       # the object the helpers write to is a new one
